@@ -239,6 +239,19 @@ class Cache:
         ):
             return "window function in `filter`"
 
+        # A window function in the SELECT list is evaluated after WHERE and before LIMIT.
+        if isinstance(node, verbs.Filter) and any(col.ftype() == Ftype.WINDOW for col in self.cols.values()):
+            return "`filter` after a window function in `mutate`"
+
+        if (
+            isinstance(node, verbs.Mutate)
+            and self.limit != 0
+            and any(
+                isinstance(fn, ColFn) and fn.op.ftype in (Ftype.AGGREGATE, Ftype.WINDOW) for fn in node.iter_col_nodes()
+            )
+        ):
+            return "window function in `mutate` after `slice_head`"
+
         if isinstance(node, verbs.Summarize):
             if self.group_by and self.group_by != set(self.partition_by):
                 return "nested summarize"
